@@ -603,6 +603,13 @@ func (fa *FA) genCandidates() {
 				}
 			case aNil:
 				fa.addCand(m, nil, ineqGE(x, linConst(1)), "nonnil")
+				// relation with the values arriving on the edges (e.g. an error that is wrapped when non-nil)
+				for k := range m.Preds {
+					if src, ok := singleAtom(fa.phiIn(a, k)); ok && fa.stable(A.at(src), m) {
+						fa.addCand(m, nil, ineqLE(linAtom(src), x), "nil-ness ≥ incoming")
+						fa.addCand(m, nil, ineqLE(x, linAtom(src)), "nil-ness ≤ incoming")
+					}
+				}
 			case aLen, aCap:
 				for _, p := range fn.Params {
 					if isSliceOrString(p.Type()) {
